@@ -22,7 +22,7 @@ var c15Scenarios = []string{"basic", "second-hop", "multi", "kill-b", "kill-a-th
 func init() {
 	Register(&Prop{ID: "C15",
 		Meta: Meta{Level: "exploration",
-			Rule:       "histories over {start A, write state through A, take ReattachConfig, reattach as B (and C, D, sequentially and concurrently), read state through each, kill B, kill A, crash the plugin, reattach after death, reattach to an address where nothing listens, reattach after the pid was reused by an unrelated process, a second unrelated plugin that must survive}, for net/rpc and gRPC, for simulated plugin processes and for in-process test-mode servers (ServeTestConfig with context cancel and CloseCh); scenarios enumerated x protocol, then seeded schedule noise in reattach/cmd_reattach/pidWait/Kill. Oracle: every reattached client sees A's state and protocol and can dispense; killing a reattached (non-test) client terminates exactly that plugin; reattach with nothing listening or after death fails with ErrProcessNotFound and never signals an unrelated process; in test mode Kill leaves the server answering further clients and it stops, closing CloseCh, only after its context is cancelled",
+			Rule:       "histories over {start A, write state through A, take ReattachConfig, reattach as B (and C, D, sequentially and concurrently), read state through each, kill B, kill A, crash the plugin, reattach after death, reattach to an address where nothing listens, reattach after the pid was reused by an unrelated process, a second unrelated plugin that must survive}, for net/rpc and gRPC, for simulated plugin processes and for in-process test-mode servers (ServeTestConfig with context cancel and CloseCh); scenarios enumerated x protocol, then seeded schedule noise in reattach/cmd_reattach/pidWait/Kill. Oracle: every reattached client sees A's state and protocol and can dispense; killing a reattached (non-test) client terminates exactly that plugin; reattach with nothing listening or after death fails with ErrProcessNotFound and never signals an unrelated process; in test mode Kill leaves the server answering further clients and it stops, closing CloseCh, only after its context is cancelled; a test-mode reattached client first used 1.5-4.5 s after Start, or kept in use (calls, brokered connections) for several seconds, keeps working and never reports Exited()",
 			Exhaustive: "scenario x protocol"},
 		Plan: func(tier string, seed uint64, stage int, prev []*h.Result) []*k.Spec {
 			if stage > 0 {
